@@ -8,6 +8,8 @@ type RCallGraph struct {
 }
 
 func NewRCallGraph() RCallGraph {
+	loopCount = 0
+	lastChild = ""
 	return RCallGraph{}
 }
 
@@ -17,6 +19,8 @@ func (c RCallGraph) Analysis(funcName string, clzs []core_domain.CodeDataStruct,
 
 	writeCallback(methodCallMap)
 
+	loopCount = 0
+	lastChild = ""
 	chain := c.BuildRCallChain(funcName, methodCallMap)
 	dotContent := ToGraphviz(chain)
 	return dotContent
